@@ -394,6 +394,9 @@ pub struct Body {
     pub yields: Option<usize>,
     /// async bodies: wake the operation's own waker during the poll (the wake-up arrives while running)
     pub self_wake: bool,
+    /// async bodies: return Pending once without arranging any wake-up and be Ready when polled again (only a spurious
+    /// re-poll, e.g. by another runner taking the queue over, completes it)
+    pub silent_step: bool,
 }
 
 impl Body {
@@ -501,6 +504,21 @@ impl Future for SelfWake {
     }
 }
 
+/// Pending on its first poll without registering or firing any waker, Ready on the next poll
+struct SilentTwoStep(bool);
+impl Future for SilentTwoStep {
+    type Output = ();
+    fn poll(mut self: Pin<&mut Self>, _cx: &mut Context) -> Poll<()> {
+        vthread::yield_now();
+        if self.0 {
+            Poll::Ready(())
+        } else {
+            self.0 = true;
+            Poll::Pending
+        }
+    }
+}
+
 async fn run_async(body: Body, rec: Arc<Rec>, op: OpId, st: Arc<ObjState>, name: String) {
     rec.start(op);
     st.enter(&name);
@@ -510,6 +528,10 @@ async fn run_async(body: Body, rec: Arc<Rec>, op: OpId, st: Arc<ObjState>, name:
     }
     if body.self_wake {
         SelfWake.await;
+    }
+    if body.silent_step {
+        SilentTwoStep(false).await;
+        vthread::yield_now();
     }
     if let Some(g) = &body.gate {
         g.clone().await;
